@@ -1131,3 +1131,12 @@ def two_forms(c, degree=1):
     f = Coefficient(V)
     k = Constant(c.mesh)
     return [k * inner(grad(u), grad(v)) * dx + f * inner(u, v) * dx, exp(0.2 * f) * inner(f, v) * dx]
+
+
+@builder
+def bessel(c, kind="J", nu=1):
+    V = c.V("Lagrange", 1)
+    v = TestFunction(V)
+    f = Coefficient(V)
+    fn = {"J": ufl.bessel_J, "Y": ufl.bessel_Y, "I": ufl.bessel_I, "K": ufl.bessel_K}[kind]
+    return fn(nu, 1.5 + 0.5 * f) * v * dx
